@@ -47,6 +47,11 @@ def top_schemas():
     out.append(("null-record", {"type": "record", "name": "N", "fields": [{"name": "n", "type": "null"}]}))
     out.append(("recursive", copy.deepcopy(LIST)))
     out.append(("wrapped-prim", {"type": "string"}))
+    out.append(("null-namespace-nested", {"type": "record", "name": "Top", "namespace": "com.example", "fields": [
+        {"name": "node", "type": {"type": "record", "name": "Node", "namespace": "", "fields": [{"name": "v", "type": "int"}, {"name": "k", "type": {"type": "enum", "name": "K", "symbols": ["A", "B"]}}]}},
+        {"name": "f", "type": {"type": "fixed", "name": "Fx", "namespace": "", "size": 2}},
+        {"name": "inner", "type": {"type": "record", "name": "Node", "fields": [{"name": "w", "type": "string"}]}},
+        {"name": "again", "type": ["null", "Node"], "default": None}]}))
     return out
 
 
